@@ -193,7 +193,10 @@ func (h *Handler) HandleOpenFile(ctx *Context, path string) (fs.FileInfo, error)
 	if fi.Size() >= 0x200000 && fi.Size() <= 0x35000000 {
 		sectorSize, err := determineSectorSize(f)
 		if err != nil {
+			// guessing the default here would make READ_CD serve bytes from wrong offsets
 			log.WarnContext(ctx, "Determine sector size failed", logutil.ErrorAttr(err))
+			h.HandleCloseFile(ctx)
+			return nil, err
 		}
 		if sectorSize > 0 && sectorSize != ctx.State.CDSectorSize {
 			log.InfoContext(ctx, "Sector size determined", slog.Int("size", sectorSize))
